@@ -211,6 +211,48 @@ func checkC13(c c13Case) (o vstat.Outcome) {
 		o.V = v
 		return
 	}
+	// the same derivations with both keys loaded from their serialized forms (the current 64-byte one and the legacy
+	// 96-byte one, seed||pub||pub), the second load happening while the first key is still in use
+	for _, form := range []string{"serialized-64", "serialized-legacy-96"} {
+		form := form
+		if v := vstat.Guard("DeriveKey", func() *vstat.Violation {
+			wire := func(idx int) []byte {
+				raw, _ := gen.Key(idx).Raw()
+				data := append([]byte{}, raw...)
+				if form == "serialized-legacy-96" {
+					data = append(data, raw[32:]...)
+				}
+				w, _ := (&crypto.PrivateKey{KeyType: crypto.KeyType_Ed25519, Data: data}).MarshalVT()
+				return w
+			}
+			ka, err := crypto.UnmarshalPrivateKey(wire(c.A.Key))
+			if err != nil {
+				return vstat.Viol("serialized-key-refused", "UnmarshalPrivateKey(%s form): %v", form, err)
+			}
+			kb, err := crypto.UnmarshalPrivateKey(wire(c.B.Key))
+			if err != nil {
+				return vstat.Viol("serialized-key-refused", "UnmarshalPrivateKey(%s form): %v", form, err)
+			}
+			// further loads in between, as a process that reads several key files does
+			for i := 0; i < 4; i++ {
+				_, _ = crypto.UnmarshalPrivateKey(wire((c.B.Key + 1 + i) % 4))
+			}
+			outA, outB := make([]byte, c.OutLen), make([]byte, c.OutLen)
+			if err := peer.DeriveKey(c.A.Ctx, c.A.salt(), ka, outA); err != nil {
+				return vstat.Viol("key-storage-dependent", "DeriveKey with the key loaded from its %s form: %v", form, err)
+			}
+			if err := peer.DeriveKey(c.B.Ctx, c.B.salt(), kb, outB); err != nil {
+				return vstat.Viol("key-storage-dependent", "DeriveKey with the key loaded from its %s form: %v", form, err)
+			}
+			if !bytes.Equal(outA, a1) || !bytes.Equal(outB, b1) {
+				return vstat.Viol("key-storage-dependent", "deriving with keys loaded from their %s form (several loads, then the derivations) gives other outputs than with the same keys built directly (first equal=%v second equal=%v)", form, bytes.Equal(outA, a1), bytes.Equal(outB, b1))
+			}
+			return nil
+		}); v != nil {
+			o.V = v
+			return
+		}
+	}
 	// Ed25519 derivation
 	o.V = vstat.Guard("DeriveEd25519Key", func() *vstat.Violation {
 		pa, puba, err := peer.DeriveEd25519Key(c.A.Ctx, c.A.salt(), gen.Key(c.A.Key))
